@@ -183,3 +183,48 @@ def check_expect(exp, kinds, observed, canonical):
                     if nm not in names:
                         bad.append("canonical LR(1): valid continuation %r not listed" % nm)
         return bad
+
+
+def deep_inputs(spec, nstates, max_words=40):
+    """Pumped inputs that drive the stack deeper than the number of LR states: u[:i] x^k u[i:] for short viable prefixes u,
+    every terminal x and k in {nstates+2, 2*nstates+2}, kept when still a viable prefix (python CYK over CNF(Pre(G)))."""
+    from corpus import cfg as C
+    if not spec.lang_nonempty:
+        return []
+    pre = C.prefix_cfg(spec.cfg, [spec.start])
+    short = sorted(C.language(pre, spec.start + "^", 3), key=lambda w: (len(w), w))
+    terms = [t for t in spec.cfg.terms if t != G.ERROR_TERM]
+    kind_of = {n: i for i, n in enumerate(spec.kinds)}
+    out, seen = [], set()
+    for u in short:
+        for i in range(len(u) + 1):
+            for x in terms:
+                for k in (nstates + 2, 2 * nstates + 2):
+                    w = u[:i] + (x,) * k + u[i:]
+                    if w in seen:
+                        continue
+                    seen.add(w)
+                    if C.cyk(spec.cnf, spec.start + "^", w):
+                        out.append([kind_of[t] for t in w])
+                        if len(out) >= max_words:
+                            return out
+    return out
+
+
+def deep_expect(spec, kinds):
+    """specification verdict for a long input by python CYK (no enumeration of the language)"""
+    from corpus import cfg as C
+    names = tuple(spec.kinds[k] for k in kinds)
+    terms = [t for t in spec.cfg.terms if t != G.ERROR_TERM]
+
+    def viable(w):
+        return True if len(w) == 0 else C.cyk(spec.cnf, spec.start + "^", w)
+
+    def nxt(prefix):
+        return {t for t in terms if viable(prefix + (t,))}
+    if C.cyk(spec.cnf, spec.start, names):
+        return {"kind": "OK"}
+    for k in range(len(names)):
+        if not viable(names[:k + 1]):
+            return {"kind": "TOKEN", "idx": k, "valid_next": nxt(names[:k])}
+    return {"kind": "EOF", "idx": len(names), "valid_next": nxt(names)}
